@@ -173,13 +173,13 @@ Proof.
   - apply andb_true_iff in Hok. destruct Hok as [Hk Hl]. destruct (live_start_spec _ _ Hl) as (k0 & par & Hn & Hw).
     unfold m_set_kind, set_start_kind in H. cbn [fst snd] in H. rewrite Hn in H. inversion H; subst. cbn [fst snd].
     rewrite (depth_set_nth_start _ _ _ _ k par Hn), Hw, (wk_not_none _ Hk). lia.
-  - destruct (live_start_spec _ _ Hok) as (k0 & par & Hn & Hw).
+  - apply andb_true_iff in Hok. destruct Hok as [Hok _]. destruct (live_start_spec _ _ Hok) as (k0 & par & Hn & Hw).
     unfold m_complete in H. cbn [fst snd] in H. rewrite Hn in H.
     destruct (Nat.eqb (length evs) (S p)).
     + destruct (set_start_kind evs p SK_None) as [evs1|] eqn:E; [|discriminate]. inversion H; subst. cbn [fst snd].
       rewrite (erase_live _ _ _ Hok E). reflexivity.
     + unfold m_raw_end in H. inversion H; subst. cbn [fst snd]. rewrite depth_app. cbn [depth]. lia.
-  - unfold m_undo in H. cbn [fst snd] in H.
+  - apply andb_true_iff in Hok. destruct Hok as [Hok _]. unfold m_undo in H. cbn [fst snd] in H.
     destruct (set_start_kind evs p SK_None) as [evs1|] eqn:E; [|discriminate]. inversion H; subst. cbn [fst snd].
     rewrite (erase_live _ _ _ Hok E). reflexivity.
   - unfold m_precede, m_mark in H. cbn [fst snd] in H.
@@ -191,14 +191,111 @@ Proof.
   - inversion H; subst. cbn [fst snd]. rewrite depth_app. cbn [depth]. lia.
 Qed.
 
+(** *** every prefix has at least as many live starts as ends *)
+Lemma prefix_ok_app : forall a b d, prefix_ok (a ++ b) d = prefix_ok a d && prefix_ok b (d + depth a).
+Proof.
+  induction a as [|e a IH]; intros b d; cbn [app prefix_ok depth].
+  - rewrite Z.add_0_r. reflexivity.
+  - destruct e as [k par|k s l| |].
+    + rewrite IH. destruct (N.eqb k SK_None); do 2 f_equal; lia.
+    + apply IH.
+    + rewrite IH, andb_assoc. do 2 f_equal. lia.
+    + apply IH.
+Qed.
+
+Lemma prefix_ok_mono : forall l d d', prefix_ok l d = true -> d <= d' -> prefix_ok l d' = true.
+Proof.
+  induction l as [|e l IH]; intros d d' H Hd; cbn [prefix_ok] in *; [reflexivity|].
+  destruct e as [k par|k s l0| |].
+  - destruct (N.eqb k SK_None); eapply IH; eauto; lia.
+  - eapply IH; eauto.
+  - apply andb_true_iff in H. destruct H as [H1 H2]. apply andb_true_iff. split.
+    + apply Z.leb_le in H1. apply Z.leb_le. lia.
+    + eapply IH; eauto. lia.
+  - eapply IH; eauto.
+Qed.
+
+Lemma prefix_ok_nonneg : forall l d, prefix_ok l d = true -> 0 <= d -> 0 <= d + depth l.
+Proof.
+  induction l as [|e l IH]; intros d H Hd; cbn [prefix_ok depth] in *; [lia|].
+  destruct e as [k par|k s l0| |].
+  - destruct (N.eqb k SK_None); [specialize (IH d H Hd)|specialize (IH (d + 1) H)]; lia.
+  - specialize (IH d H Hd). lia.
+  - apply andb_true_iff in H. destruct H as [H1 H2]. apply Z.leb_le in H1. specialize (IH (d - 1) H2). lia.
+  - specialize (IH d H Hd). lia.
+Qed.
+
+Lemma split_nth : forall (evs : list event) p e, nth_error evs p = Some e ->
+  evs = firstn p evs ++ e :: skipn (S p) evs /\ forall x, set_nth evs p x = firstn p evs ++ x :: skipn (S p) evs.
+Proof.
+  induction evs as [|a evs IH]; intros [|p] e H; try discriminate.
+  - cbn in H. inversion H; subst. split; [reflexivity|intros; reflexivity].
+  - cbn [nth_error] in H. destruct (IH p e H) as [A B]. split.
+    + cbn [firstn skipn app]. f_equal. exact A.
+    + intros x. cbn [set_nth firstn app]. change (skipn (S (S p)) (a :: evs)) with (skipn (S p) evs). f_equal. apply B.
+Qed.
+
+(** retagging a start without changing whether it is erased *)
+Lemma prefix_ok_retag : forall evs p k0 par k par' d,
+  nth_error evs p = Some (NodeStart k0 par) -> wk k = wk k0 ->
+  prefix_ok (set_nth evs p (NodeStart k par')) d = prefix_ok evs d.
+Proof.
+  intros evs p k0 par k par' d Hn Hw. destruct (split_nth _ _ _ Hn) as [A B]. rewrite (B (NodeStart k par')).
+  rewrite A at 3. rewrite !prefix_ok_app. cbn [prefix_ok depth]. unfold wk in Hw.
+  destruct (N.eqb k SK_None), (N.eqb k0 SK_None); try discriminate; reflexivity.
+Qed.
+
+(** erasing a live start that no later NodeEnd needs *)
+Lemma prefix_ok_erase : forall evs p k0 par,
+  nth_error evs p = Some (NodeStart k0 par) -> unclosed evs p = true -> prefix_ok evs 0 = true ->
+  prefix_ok (set_nth evs p (NodeStart SK_None par)) 0 = true.
+Proof.
+  intros evs p k0 par Hn Hu H. destruct (split_nth _ _ _ Hn) as [A B]. rewrite (B (NodeStart SK_None par)).
+  rewrite A in H. rewrite prefix_ok_app in *. cbn [prefix_ok] in *. apply andb_true_iff in H. destruct H as [H1 H2].
+  rewrite H1. cbn [andb]. replace (N.eqb SK_None SK_None) with true by reflexivity.
+  unfold unclosed in Hu. eapply prefix_ok_mono; [exact Hu|]. apply (prefix_ok_nonneg _ 0 H1). lia.
+Qed.
+
+Lemma exec_dop_prefix : forall m d m',
+  exec_dop false m d = Some m' -> mop_ok m d = true -> snd m = depth (fst m) ->
+  prefix_ok (fst m) 0 = true -> prefix_ok (fst m') 0 = true.
+Proof.
+  intros [evs lv] d m' H Hok Hinv Hp. cbn [fst snd] in *. subst lv.
+  destruct d; unfold exec_dop in H; cbn [mop_ok fst snd] in Hok.
+  - unfold m_mark in H. inversion H; subst. cbn [fst]. rewrite prefix_ok_app, Hp. cbn [prefix_ok]. destruct (N.eqb k SK_None); reflexivity.
+  - apply andb_true_iff in Hok. destruct Hok as [Hk Hl]. destruct (live_start_spec _ _ Hl) as (k0 & par & Hn & Hw).
+    unfold m_set_kind, set_start_kind in H. cbn [fst snd] in H. rewrite Hn in H. inversion H; subst. cbn [fst].
+    rewrite (prefix_ok_retag _ _ _ _ k par 0 Hn); [exact Hp|]. rewrite Hw. apply wk_not_none. exact Hk.
+  - apply andb_true_iff in Hok. destruct Hok as [Hl Hpos]. destruct (live_start_spec _ _ Hl) as (k0 & par & Hn & Hw).
+    unfold m_complete in H. cbn [fst snd] in H. rewrite Hn in H.
+    destruct (Nat.eqb_spec (length evs) (S p)) as [El|El].
+    + unfold set_start_kind in H. rewrite Hn in H. inversion H; subst. cbn [fst].
+      eapply prefix_ok_erase; eauto. unfold unclosed. rewrite skipn_all2 by lia. reflexivity.
+    + unfold m_raw_end in H. inversion H; subst. cbn [fst snd]. rewrite prefix_ok_app, Hp. cbn [prefix_ok andb].
+      apply Z.ltb_lt in Hpos. rewrite andb_true_r. apply Z.leb_le. lia.
+  - apply andb_true_iff in Hok. destruct Hok as [Hl Hu]. destruct (live_start_spec _ _ Hl) as (k0 & par & Hn & Hw).
+    unfold m_undo, set_start_kind in H. cbn [fst snd] in H. rewrite Hn in H. inversion H; subst. cbn [fst].
+    eapply prefix_ok_erase; eauto.
+  - unfold m_precede, m_mark in H. cbn [fst snd] in H.
+    destruct (nth_error (evs ++ [NodeStart k 0]) start) as [[k0 par| | |]|] eqn:Hn; try discriminate.
+    inversion H; subst. cbn [fst]. rewrite prefix_ok_app.
+    rewrite (prefix_ok_retag _ _ _ _ k0 (length evs) 0 Hn eq_refl), prefix_ok_app, Hp. cbn [prefix_ok]. destruct (N.eqb k SK_None); reflexivity.
+  - unfold m_raw_end in H. inversion H; subst. cbn [fst snd]. rewrite prefix_ok_app, Hp. cbn [prefix_ok andb].
+    apply Z.ltb_lt in Hok. rewrite andb_true_r. apply Z.leb_le. lia.
+  - inversion H; subst. cbn [fst]. rewrite prefix_ok_app, Hp. reflexivity.
+Qed.
+
+(** the invariant of the marker API: exact mark level, and no prefix closes more than it opened *)
+Definition lvl_ok (m : mst) : Prop := snd m = depth (fst m) /\ prefix_ok (fst m) 0 = true.
+
 Lemma exec_dops_level : forall ds m m',
-  exec_dops false m ds = Some m' -> mops_ok false m ds = true -> snd m = depth (fst m) -> snd m' = depth (fst m').
+  exec_dops false m ds = Some m' -> mops_ok false m ds = true -> lvl_ok m -> lvl_ok m'.
 Proof.
   induction ds as [|d ds IH]; intros m m' H Hok Hinv; cbn [exec_dops mops_ok] in *.
   - inversion H; subst. exact Hinv.
   - destruct (exec_dop false m d) as [m1|] eqn:E; [|discriminate].
-    apply andb_true_iff in Hok. destruct Hok as [Hd Hr].
-    eapply IH; [exact H|exact Hr|]. eapply exec_dop_level; eauto.
+    apply andb_true_iff in Hok. destruct Hok as [Hd Hr]. destruct Hinv as [I1 I2].
+    eapply IH; [exact H|exact Hr|]. split; [eapply exec_dop_level; eauto|eapply exec_dop_prefix; eauto].
 Qed.
 
 Lemma depth_emit : forall m t, depth (fst (emit m t)) = depth (fst m).
@@ -337,13 +434,18 @@ Proof.
     + inversion H; subst. reflexivity.
 Qed.
 
-Definition lvl_ok (m : mst) : Prop := snd m = depth (fst m).
-
-Lemma lvl_emit : forall m t, lvl_ok m -> lvl_ok (emit m t).
-Proof. intros m t H. unfold lvl_ok in *. rewrite depth_emit. destruct m; exact H. Qed.
+Lemma prefix_eats : forall ts d, prefix_ok (map eat ts) d = true.
+Proof. induction ts as [|t ts IH]; intros d; [reflexivity|]. cbn [map prefix_ok eat]. apply IH. Qed.
 
 Lemma lvl_emit_all : forall m ts, lvl_ok m -> lvl_ok (emit_all m ts).
-Proof. intros m ts H. unfold lvl_ok in *. rewrite depth_emit_all. destruct m; exact H. Qed.
+Proof.
+  intros [evs lv] ts [H1 H2]. unfold lvl_ok, emit_all in *. cbn [fst snd] in *. split.
+  - rewrite depth_app, depth_eats. lia.
+  - rewrite prefix_ok_app, H2, prefix_eats. reflexivity.
+Qed.
+
+Lemma lvl_emit : forall m t, lvl_ok m -> lvl_ok (emit m t).
+Proof. intros m t H. apply (lvl_emit_all m [t] H). Qed.
 
 Lemma parse_comments_spec : forall doc s g s',
   parse_comments false doc s g = Some s' -> g <> [] ->
@@ -528,7 +630,8 @@ Proof.
       intros Hk. destruct (P2 Hk) as [Q1 Q2]. split; [exact Q1|]. intros b Hb.
       destruct (tiles_app_inv _ _ _ _ Hb) as (a0 & Ha0 & Hg). eapply Q2; eauto. }
   destruct Hfin as [FinL FinT].
-  repeat split; try lia.
+  split; [reflexivity|]. split; [reflexivity|]. split; [reflexivity|]. split; [reflexivity|]. split; [lia|].
+  split; [intros H; split|intros H; split].
   - (* level *)
     destruct (FinL H) as [D1 _]. destruct (run_acts_level _ _ _ _ _ _ Hrun D1) as [D0 _]. exact D0.
   - intros Hl. destruct (FinL H) as [D1 L1]. destruct (run_acts_level _ _ _ _ _ _ Hrun D1) as [_ L0]. apply L1, L0.
@@ -625,7 +728,7 @@ Proof.
     cbn [with_m with_disc p_disc p_doc_ok p_m p_tokens p_index p_inited p_current].
     split; [intros E; apply andb_true_iff in E; apply E|]. split; [auto|]. split.
     + intros L E. cbn [with_m with_disc p_disc p_m] in *. apply andb_true_iff in E. destruct E as [E1 E2].
-      unfold lvl_ok. eapply exec_dop_level; eauto. apply L. exact E1.
+      destruct (L E1) as [L1 L2]. split; [eapply exec_dop_level; eauto|eapply exec_dop_prefix; eauto].
     + intros I E K. cbn [with_m with_disc p_disc p_doc_ok p_m] in *. apply andb_true_iff in E. destruct E as [E1 E2].
       destruct (I E1 K) as [A B C D (a & F1 & F2)].
       constructor; cbn [with_m with_disc p_tokens p_index p_inited p_current p_m]; auto.
@@ -715,7 +818,7 @@ Lemma pst_new_inv : forall total toks doc, tiles toks 0 total -> alive toks ->
   Linv (pst_new toks doc) /\ Einv total (pst_new toks doc).
 Proof.
   intros total toks doc Ht Ha. split.
-  - intros _. reflexivity.
+  - intros _. split; reflexivity.
   - intros _ _. constructor; cbn [pst_new p_tokens p_index p_inited p_current p_m]; auto; try discriminate.
     exists 0. split; reflexivity.
 Qed.
@@ -726,7 +829,17 @@ Lemma mark_level_exact : forall toks doc ops st,
   snd (p_m st) = depth (fst (p_m st)).
 Proof.
   intros toks doc ops st H Hd.
-  destruct (exec_ops_inv 0 _ _ _ H) as (_ & L & _). apply L; [|exact Hd]. intros _. reflexivity.
+  destruct (exec_ops_inv 0 _ _ _ H) as (_ & L & _). apply L; [|exact Hd]. intros _. split; reflexivity.
+Qed.
+
+(** markers_balanced: no prefix of the event list closes more nodes than it opened, and the mark level is the number
+    of nodes still open *)
+Lemma markers_balanced : forall toks doc ops st,
+  exec_ops false (pst_new toks doc) ops = Some st -> p_disc st = true ->
+  prefix_ok (fst (p_m st)) 0 = true /\ snd (p_m st) = depth (fst (p_m st)).
+Proof.
+  intros toks doc ops st H Hd.
+  destruct (exec_ops_inv 0 _ _ _ H) as (_ & L & _). destruct (L (fun _ => conj eq_refl eq_refl) Hd) as [A B]. auto.
 Qed.
 
 Lemma pump_emits_all : forall toks total doc ops st,
